@@ -961,9 +961,18 @@ def _work_small(job):
 
 def compare(ctx, packs: list[dict]) -> None:
     """Model vs implementation on every step of every history (ctx: a Ctx or a worker's Part)."""
-    from harness.common import lean_batch
+    import time
 
-    outs = lean_batch([p["req"] for p in packs])
+    from harness.common import Infra, lean_batch
+
+    for attempt in range(8):
+        try:
+            outs = lean_batch([p["req"] for p in packs])
+            break
+        except (Infra, OSError):  # the driver binary is being relinked by a concurrent build: wait and retry
+            if attempt == 7:
+                raise
+            time.sleep(10)
     for p, out in zip(packs, outs):
         if "err" in out:
             ctx.disagree("model driver error", p["case"], out, None)
